@@ -357,6 +357,79 @@ class C08Machine(RecordingMixin, RuleBasedStateMachine):
         if c._get_circuit_spec():
             self.nontrivial = True
 
+    def do_maybe(self, i, j, kind, a, b):
+        """Calls whose arguments are unusual but which the library may accept or refuse as it sees fit. They are made
+        on a copy of a pooled circuit; whichever way it goes, nobody else may change, and if the call raises - any
+        exception - the copy must be exactly what it was before ("a construction call that raises leaves the circuit
+        exactly as it was before")."""
+        import numpy as _np
+        import lightworks as lw
+        k = self.pick(i)
+        c = self.guarded("copy", lambda: self.circs[k].copy())[0]
+        um = user_modes(c)
+        if um < 1:
+            return
+        child = self.circs[self.pick(j)]
+        odd_names = ["", "  ", 7, 2.5, ["x"], None, ("a", "b"), b"raw", "x" * 300]
+        odd_modes = [_np.int64(a % um), float(a % um), str(a % um), None, [a % um], _np.float64(a % um) + 0.5, True,
+                     -1 - a % 3, um + b % 2]
+        fits = child.input_modes <= um and child.input_modes > 0
+        calls = {
+            "add-odd-name": (lambda: c.add(child, b % (um - child.input_modes + 1), group=True,
+                                           name=odd_names[a % len(odd_names)])) if fits else None,
+            "add-odd-name-ungrouped": (lambda: c.add(child, b % (um - child.input_modes + 1), group=False,
+                                                     name=odd_names[a % len(odd_names)])) if fits else None,
+            "add-odd-mode": (lambda: c.add(child, odd_modes[a % len(odd_modes)], group=bool(b % 2))) if fits else None,
+            "add-odd-group-flag": (lambda: c.add(child, 0, group=["yes", None, 2, 0.0][a % 4])) if fits else None,
+            "herald-odd-mode": lambda: c.herald(b % 2, odd_modes[a % len(odd_modes)]),
+            "herald-odd-output": lambda: c.herald(b % 2, a % um, odd_modes[b % len(odd_modes)]),
+            "herald-odd-photons": lambda: c.herald([-1, 1.0, "1", None, _np.int64(1), 2 ** 40][a % 6], b % um),
+            "bs-odd-mode": lambda: c.bs(odd_modes[a % len(odd_modes)], loss=[0, 0.2][b % 2]),
+            "bs-odd-mode-2": lambda: c.bs(a % um, odd_modes[b % len(odd_modes)], loss=[0, 0.2][a % 2]),
+            "bs-odd-value": lambda: c.bs(0, reflectivity=[None, "0.5", 1 + 1e-12, -1e-12, [0.5], 0.5j][a % 6],
+                                         loss=[0, 0.1][b % 2]),
+            "bs-odd-loss": lambda: c.bs(0, loss=[None, "0.1", 1 + 1e-12, -1e-12, [0.1], float("nan")][a % 6]),
+            "ps-odd-mode": lambda: c.ps(odd_modes[a % len(odd_modes)], 0.3, loss=[0, 0.2][b % 2]),
+            "ps-odd-phase": lambda: c.ps(a % um, [None, "pi", [0.3], {"phi": 1}][b % 4]),
+            "ps-odd-loss": lambda: c.ps(a % um, 0.3, loss=[None, "0.1", 1 + 1e-12, -1e-12, [0.1]][b % 5]),
+            "loss-odd-mode": lambda: c.loss(odd_modes[a % len(odd_modes)], 0.3),
+            "loss-odd-value": lambda: c.loss(a % um, [None, "0.1", 1 + 1e-12, -1e-12, [0.1], True][b % 6]),
+            "barrier-odd": lambda: c.barrier([[a % um, a % um], [a % um, None], [float(a % um)], "01", (0,), [-1],
+                                              [um]][b % 7]),
+            "swaps-odd": lambda: c.mode_swaps([{0: 0.0}, {0: 1, 1: 0, 2: 2.5}, {"0": "1", "1": "0"}, [(0, 1), (1, 0)],
+                                               {0: 1, 1: 1}, {0: um, um: 0}, {-1: 0, 0: -1}][a % 7]),
+            "unitary-odd": lambda: c.add(lw.Unitary(_np.eye(2), label=[7, None, ["u"], ""][a % 4]), b % um),
+        }
+        fn = calls[kind]
+        if fn is None:
+            return
+        before = snapshot(c)
+        what = f"{kind}(a={a}, b={b}) on a copy of circuit#{k}"
+
+        def attempt():
+            try:
+                fn()
+            except Violation:
+                raise
+            except Exception as e:  # noqa: BLE001
+                return e
+            return None
+        raised, _ = self.guarded(what, attempt)
+        if raised is not None:
+            try:
+                after = snapshot(c)
+            except Exception as e2:  # noqa: BLE001
+                raise Violation(f"{what} raised {type(raised).__name__} and left a circuit that no longer compiles "
+                                f"({type(e2).__name__}: {e2})", key="failed-call-changed-circuit") from e2
+            if after != before:
+                raise Violation(f"{what} raised {type(raised).__name__}: {raised} - but changed its circuit "
+                                f"({snapshot_diff(before, after)})", key="failed-call-changed-circuit")
+            self.info_labels.add("maybe:" + kind + ":raised")
+            if c._get_circuit_spec():
+                self.nontrivial = True
+        else:
+            self.info_labels.add("maybe:" + kind + ":accepted")
+
     # --------------------------------------------------------------- rules
     @initialize(prog=small_prog)
     def first(self, prog):
@@ -455,6 +528,14 @@ class C08Machine(RecordingMixin, RuleBasedStateMachine):
         a=st.integers(0, 5), b=st.integers(0, 5))
     def r_reject(self, i, kind, a, b):
         self.step("reject", i=i, kind=kind, a=a, b=b)
+
+    @rule(i=IDX, j=IDX, kind=st.sampled_from([
+        "add-odd-name", "add-odd-name-ungrouped", "add-odd-mode", "add-odd-group-flag", "herald-odd-mode",
+        "herald-odd-output", "herald-odd-photons", "bs-odd-mode", "bs-odd-mode-2", "bs-odd-value", "bs-odd-loss",
+        "ps-odd-mode", "ps-odd-phase", "ps-odd-loss", "loss-odd-mode", "loss-odd-value", "barrier-odd", "swaps-odd",
+        "unitary-odd"]), a=st.integers(0, 11), b=st.integers(0, 11))
+    def r_maybe(self, i, j, kind, a, b):
+        self.step("maybe", i=i, j=j, kind=kind, a=a, b=b)
 
     def teardown(self):
         import matplotlib.pyplot as plt
